@@ -212,6 +212,38 @@ func c20Templates() []*c20Tpl {
 			}
 		}
 	})
+	// redefinition with the very same value (also through another constant) is
+	// still a redefinition
+	for _, via := range []bool{false, true} {
+		via := via
+		name := "constant-redefined-with-the-same-value"
+		if via {
+			name += "-through-a-constant"
+		}
+		add(name, func(t *c20Tpl) {
+			k1 := t.atoms.New(ClsIdent, "const", "")
+			k2 := t.atoms.New(ClsIdent, "const", "")
+			k3 := t.atoms.New(ClsIdent, "const", "")
+			n := t.atoms.New(ClsNum, "constval", "")
+			s := t.atoms.New(ClsUserName, "script", "names")
+			t.src = func() string {
+				second := ph(n) + " + 1"
+				if via {
+					second = ph(k2) + " + 1"
+				}
+				return lines("const "+ph(k2)+" = "+ph(n), "const "+ph(k1)+" = "+ph(n)+" + 1", "const "+ph(k3)+" = "+second, "script "+ph(s)+" {", "  end", "}")
+			}
+			t.bad = func(x *OracleCtx) interp.Value {
+				return interp.SymBool{T: interp.Or(interp.BoolTerm(interp.StrEq(k3.Val, k1.Val)), interp.BoolTerm(interp.StrEq(k3.Val, k2.Val)))}
+			}
+			t.line = 3
+			t.extra = func(x *OracleCtx) {
+				if !x.Replay {
+					x.C.Assume(interp.Not(interp.BoolTerm(interp.StrEq(k1.Val, k2.Val))))
+				}
+			}
+		})
+	}
 	// ---- labels vs generated labels (concrete script name, symbolic label)
 	anyOf := func(l *Atom, names ...string) interp.Value {
 		var ts []string
@@ -295,6 +327,45 @@ func c20Templates() []*c20Tpl {
 		}
 		t.line = 3
 	})
+	// a label inside nested blocks equal to a text label (explicit or hoisted)
+	for _, where := range []string{"if", "else", "while", "case"} {
+		where := where
+		add("nested-label-equals-text-label-in-"+where, func(t *c20Tpl) {
+			l := t.atoms.New(ClsIdent, "lbl", "")
+			tn := t.atoms.New(ClsUserName, "text", "")
+			c := t.atoms.New(ClsPlainCmd, "cmd", "")
+			f := t.atoms.New(ClsIdent, "flag", "")
+			t.src = func() string {
+				var blk []string
+				switch where {
+				case "if":
+					blk = []string{"  if (flag(" + ph(f) + ")) {", "    " + ph(l) + ":", "    " + ph(c), "  }"}
+				case "else":
+					blk = []string{"  if (flag(" + ph(f) + ")) {", "    " + ph(c), "  } else {", "    " + ph(l) + "(global):", "  }"}
+				case "while":
+					blk = []string{"  while (flag(" + ph(f) + ")) {", "    " + ph(c), "    " + ph(l) + ":", "  }"}
+				case "case":
+					blk = []string{"  switch (var(" + ph(f) + ")) {", "    case 1:", "      " + ph(l) + ":", "      " + ph(c), "  }"}
+				}
+				ls := append([]string{"script MyScript {", "  " + ph(c) + "(\"inline$\")"}, blk...)
+				ls = append(ls, "}", "text "+ph(tn)+" {", "  \"abc$\"", "}")
+				return lines(ls...)
+			}
+			t.bad = func(x *OracleCtx) interp.Value {
+				return interp.SymBool{T: interp.Or(interp.BoolTerm(interp.StrEq(l.Val, "MyScript_Text_0")), interp.BoolTerm(interp.StrEq(l.Val, tn.Val)))}
+			}
+			t.line = map[string]int{"if": 4, "else": 6, "while": 5, "case": 5}[where]
+			t.extra = func(x *OracleCtx) {
+				// clashes with the script's own chunk labels are the subject of the
+				// label-equals-chunk-label templates
+				if !x.Replay {
+					for _, n := range []string{"MyScript", "MyScript_1", "MyScript_2", "MyScript_3", "MyScript_4", "MyScript_5", "MyScript_6"} {
+						x.C.Assume(interp.Not(interp.BoolTerm(interp.StrEq(l.Val, n))))
+					}
+				}
+			}
+		})
+	}
 	// ---- text / movement names vs generated names
 	add("text-name-equals-generated", func(t *c20Tpl) {
 		tn := t.atoms.New(ClsIdent, "text", "")
@@ -307,6 +378,34 @@ func c20Templates() []*c20Tpl {
 		}
 		t.line = 5
 	})
+	// the same with the user text carrying exactly the content (and type) of
+	// the inline text whose label it takes
+	for _, first := range []bool{false, true} {
+		first := first
+		name := "text-name-equals-generated-same-content"
+		if first {
+			name += "-text-first"
+		}
+		add(name, func(t *c20Tpl) {
+			tn := t.atoms.New(ClsIdent, "text", "")
+			c := t.atoms.New(ClsPlainCmd, "cmd", "")
+			t.src = func() string {
+				scr := []string{"script MyScript {", "  " + ph(c) + "(\"one$\")", "  " + ph(c) + "(\"two$\")", "}"}
+				txt := []string{"text " + ph(tn) + " {", "  \"one$\"", "}"}
+				if first {
+					return lines(append(txt, scr...)...)
+				}
+				return lines(append(scr, txt...)...)
+			}
+			t.bad = func(x *OracleCtx) interp.Value {
+				return interp.SymBool{T: interp.Or(interp.BoolTerm(interp.StrEq(tn.Val, "MyScript_Text_0")), interp.BoolTerm(interp.StrEq(tn.Val, "MyScript_Text_1")))}
+			}
+			t.line = 5
+			if first {
+				t.line = 1
+			}
+		})
+	}
 	add("text-name-equals-generated-text-first", func(t *c20Tpl) {
 		tn := t.atoms.New(ClsIdent, "text", "")
 		c := t.atoms.New(ClsPlainCmd, "cmd", "")
